@@ -4,6 +4,57 @@ import vlib, protolib
 from vlib import run_tlc, ToolError, outdir
 
 
+EXPORTER = """Shop-Items DEFINITIONS AUTOMATIC TAGS ::= BEGIN
+Item ::= SEQUENCE { id INTEGER (0..7), ok BOOLEAN OPTIONAL }
+Kind ::= ENUMERATED { a, b, c }
+Pick ::= CHOICE { x INTEGER (0..7), y BOOLEAN }
+Wrap ::= SEQUENCE OF Item
+END
+"""
+IMPORTER = """Basket DEFINITIONS AUTOMATIC TAGS ::= BEGIN
+IMPORTS Item, Kind, Pick, Wrap FROM Shop-Items;
+T ::= SEQUENCE { one Item, kind Kind, pick Pick, items SEQUENCE OF Item, kinds SEQUENCE OF Kind OPTIONAL, picks SET OF Pick,
+                 opt Item OPTIONAL, dflt Kind DEFAULT b, ..., later SEQUENCE OF Pick, wrap Wrap OPTIONAL }
+C ::= CHOICE { i Item, k Kind, p Pick }
+L ::= SEQUENCE OF Item
+END
+"""
+# what every field of the importer must refer to (type name without package) and its label
+IMPORTER_FIELDS = {"T": [("one", "Item", "one"), ("kind", "Kind", "one"), ("pick", "Pick", "one"), ("items", "Item", "rep"), ("kinds", "Kind", "rep"),
+                         ("picks", "Pick", "rep"), ("opt", "Item", "one"), ("dflt", "Kind", "one"), ("later", "Pick", "rep")],
+                   "C": [("i", "Item", "one"), ("k", "Kind", "one"), ("p", "Pick", "one")]}
+
+
+def multi_module(v, d):
+    """Imported types in every position of an importing module: the generated files must form a valid proto3 file set in
+    which every reference resolves (protoc's scoping rules), with the labels of the mapping rule."""
+    fe, fi = os.path.join(d, "exporter.asn1"), os.path.join(d, "importer.asn1")
+    open(fe, "w").write(EXPORTER)
+    open(fi, "w").write(IMPORTER)
+    n = 0
+    for order in ((fe, fi), (fi, fe)):
+        files = protolib.proto_files(list(order))
+        n += 1
+        try:
+            parsed = protolib.parse_proto_set(files)
+        except protolib.ProtoInvalid as e:
+            v.violation("the generated .proto files of an importing module are not a valid proto3 file set: %s" % e,
+                        {"asn1": [EXPORTER, IMPORTER], "proto": files, "why": str(e)}, "multi_%d.json" % n)
+            continue
+        imp = [p for fn, p in parsed.items() if "T" in p["messages"]]
+        if not imp:
+            v.violation("no message T in the generated files", {"proto": files}, "multi_%d.json" % n)
+            continue
+        for msg, want in IMPORTER_FIELDS.items():
+            got = {f["name"]: f for f in imp[0]["messages"].get(msg, [])}
+            for name, ty, label in want:
+                f = got.get(name)
+                if f is None or f["type"].split(".")[-1] != ty or f["label"] != label:
+                    v.violation("importer message %s field %s: declared %s, the mapping rule says %s %s" % (msg, name, f, label, ty),
+                                {"proto": files, "field": name}, "multi_%d_%s_%s.json" % (n, msg, name))
+    return n
+
+
 def run(v):
     d = outdir("C18")
     findings = {f["dev"]: f for f in vlib.known_findings("C18") if f.get("dev")}
@@ -95,6 +146,7 @@ def run(v):
                      "TLA+ from the encoding specification - decodes the bytes under the declared schema to ProtoMap!ToProto(type, value) up "
                      "to default equivalence. Non-trivial = events validated." % t.nvec)
     v.cov["samples"] = [json.loads(x) for x in lines[:2]]
+    v.cov["multi_module_file_sets"] = multi_module(v, d)
     v.cov["checker_cmd"] = "tlc MC_Proto; vzoo proto (events); frontend proto; protolib.parse_proto; tlc Trace_ProtoSchema"
     v.assumptions += ["Proto.tla is my reading of the protobuf encoding specification (varint, zig-zag, keys, length-delimited)",
                       "packed repeated scalars are not accepted because the writer never produces them"]
